@@ -222,7 +222,11 @@ def main():
                 if r.get("verdict") == "error":
                     harness_errors.append("%s shard %s: %s\n%s" % (c.name, r.get("shard"), r.get("detail"), (r.get("traceback") or r.get("log_tail") or "")[-1500:]))
                 elif r.get("verdict") == "pre_unsat":
-                    harness_errors.append("%s shard %s: unable to meet precondition (vacuous)" % (c.name, r.get("shard")))
+                    if len(mains) > 1 and any((x.get("reached_paths") or 0) > 0 for x in mains):
+                        verdicts[-1] = "confirmed"      # an empty shard of a sharded condition: nothing to decide there
+                        entry["shards"][-1]["verdict"] = "empty-shard"
+                    else:
+                        harness_errors.append("%s shard %s: unable to meet precondition (vacuous)" % (c.name, r.get("shard")))
                 elif r.get("verdict") == "refuted":
                     cexargs = r.get("counterexample")
                     if cexargs is None or "_unserialisable" in cexargs:
